@@ -269,8 +269,15 @@ def getter(ctx):
     valid = gen.rand_valid(rng, spec.n)
     fu = gen.pick(rng, [None, "A/m", "T"])
     vdims = gen.rand_vdims(rng, nvdim)
-    f = gen.via_history(None, df.Field(mesh, nvdim=nvdim, value=arr.copy(), vdims=vdims, valid=valid.copy(), unit=fu))
-    info = {"nvdim": nvdim, "ndim": spec.nd, "n": spec.n, "style": style}
+    kwd = {}
+    if style == "integers" and rng.random() < 0.6:
+        # whole numbers in an integer-typed field: its lengths and unit vectors are real
+        kwd["dtype"] = gen.pick(rng, [int, np.int64, np.int32])
+        ctx.event("getter.integer_typed_field")
+    f = gen.via_history(None, df.Field(mesh, nvdim=nvdim, value=arr.copy(), vdims=vdims,
+                                       valid=valid.copy(), unit=fu, **kwd))
+    info = {"nvdim": nvdim, "ndim": spec.nd, "n": spec.n, "style": style,
+            "dtype": str(f.array.dtype)}
     ctx.sample({"kind": "getter", "nvdim": nvdim, "style": style, **spec.describe()})
 
     # ---- norm: Euclidean length per cell, one component, same mesh/unit/validity
